@@ -291,23 +291,51 @@ def run(ctx):
     if replay:
         slist = [replay]
     else:
-        # ---- 1. the design
-        r_small = _design(ctx, "BulkWrite_small.cfg", "BulkWrite small (Strict)")
-        _design(ctx, "BulkWrite_gen.cfg", "BulkWrite small (re-send allowed)")
-        _design(ctx, "BulkWrite_live.cfg", "BulkWrite liveness")
+        # ---- 1. the design, 2. emission of scripts: the small TLC runs go side by side (private coverage counters,
+        #         merged in a fixed order; the results are consumed in a fixed order, so the seeded sampling is reproducible)
+        cf = os.path.join(ctx.scratch, "bw-emit.jsonl")
+        cf2 = os.path.join(ctx.scratch, "bw-sim.jsonl")
+        cfe = {tag: os.path.join(ctx.scratch, "bw-emit-%s.jsonl" % tag) for tag in ("ctx", "rej")}
+        plan = [("small", "BulkWrite_small.cfg", dict(workers=4)),
+                ("gen", "BulkWrite_gen.cfg", dict(workers=4)),
+                ("live", "BulkWrite_live.cfg", dict(workers=4)),
+                ("emit", "BulkWrite_emit.cfg", dict(workers=6, case_file=cf)),
+                ("ctx", "BulkWrite_emit_ctx.cfg", dict(workers=2, case_file=cfe["ctx"])),
+                ("rej", "BulkWrite_emit_rej.cfg", dict(workers=4, case_file=cfe["rej"])),
+                ("sim", "BulkWrite_sim.cfg", dict(workers=1 if quick else 8, case_file=cf2,
+                                                  simulate="num=%d" % (1500 if quick else 4000), depth=100))]
+
+        def job(p):
+            sub = _SubCtx(ctx)
+            for attempt in range(6):
+                try:
+                    return vlib.run_tlc(sub, "BulkWrite.tla", p[1], timeout=3000, **p[2]), sub
+                except FileExistsError:
+                    time.sleep(0.01 + random.random() * 0.05)
+            raise vlib.Infra("could not start TLC for %s" % p[1])
+        with ThreadPoolExecutor(max_workers=len(plan)) as ex:
+            futs = [ex.submit(job, p) for p in plan]
+            res = {}
+            for p, f in zip(plan, futs):
+                r, sub = f.result()
+                ctx.cov["tlc_runs"] += sub.cov["tlc_runs"]
+                ctx.cov["states"] += sub.cov["states"]
+                ctx.cov["transitions"] += sub.cov["transitions"]
+                if r.violated:
+                    # a counterexample inside the specification is a design-level result, not behaviour of the code
+                    raise vlib.Infra("TLC: %s violated in BulkWrite.tla (%s)" % (r.violated, p[1]))
+                vlib.require_tlc_ok(r, "BulkWrite " + p[1])
+                res[p[0]] = r
+                if p[0] in ("small", "gen", "live"):
+                    design_states += sub.cov["states"]
         if not quick:
+            s0 = ctx.cov["states"]
             _design(ctx, "BulkWrite_hot33.cfg", "BulkWrite hot<=3x3, cold<=1x1", coverage=False)
             _design(ctx, "BulkWrite_all.cfg", "BulkWrite all 90 topologies (VIEW abstraction of the finished cold tier)")
-        design_states = ctx.cov["states"]
+            design_states += ctx.cov["states"] - s0
 
-        # ---- 2. emission of scripts
         stats = {"emitted": 0}
         scripts = {}
-        cf = os.path.join(ctx.scratch, "bw-emit.jsonl")
-        r = vlib.run_tlc(ctx, "BulkWrite.tla", "BulkWrite_emit.cfg", case_file=cf, timeout=3000)
-        if r.violated:
-            raise vlib.Infra("TLC: %s violated in BulkWrite.tla (emit)" % r.violated)
-        vlib.require_tlc_ok(r, "BulkWrite emit")
         tiny = {}
         _load_scripts(cf, "exh", tiny, stats)
         n_tiny_all = len(tiny)
@@ -317,12 +345,19 @@ def run(ctx):
             keys = keys[:900]
         for k in keys:
             scripts[k] = tiny[k]
-        cf2 = os.path.join(ctx.scratch, "bw-sim.jsonl")
-        r = vlib.run_tlc(ctx, "BulkWrite.tla", "BulkWrite_sim.cfg", case_file=cf2, workers=1 if quick else 8,
-                         simulate="num=%d" % (1500 if quick else 4000), depth=100, timeout=3000)
-        if r.violated:
-            raise vlib.Infra("TLC: %s violated in BulkWrite.tla (simulate)" % r.violated)
-        vlib.require_tlc_ok(r, "BulkWrite simulate")
+        # the environment dimensions, exhaustively on the topologies with <= 3 hosts: the request context ends at any
+        # moment (no breaker) / breakers reject for either reason at any moment (context alive)
+        n_env = {}
+        for tag, nq, nt in (("ctx", 450, 6000), ("rej", 450, 6000)):
+            env = {}
+            _load_scripts(cfe[tag], "exh-" + tag, env, stats)
+            ek = sorted(env)
+            rnd.shuffle(ek)
+            n_env[tag] = (len(ek), min(len(ek), nq if quick else nt))
+            for k in ek[:(nq if quick else nt)]:
+                scripts.setdefault(k, env[k])
+        if not stats.get("with_cancel") or not stats.get("with_limit"):
+            raise vlib.Infra("vacuous emission of the environment dimensions: %s" % stats)
         sim = {}
         _load_scripts(cf2, "sim", sim, stats)
         sk = sorted(sim)
@@ -344,8 +379,11 @@ def run(ctx):
             sc["natural"] = bool(faulty and sc["origin"] == "sim" and rnd.random() < 0.2)
             if sc["natural"]:
                 sc["rejs"] = []
-        vlib.log("[c09] %d scripts (%d of the %d exhaustive tiny-topology scripts, %d simulated; TLC results %s)" % (
-            len(slist), len(keys), n_tiny_all, len(sk), {k: v for k, v in stats.items() if k.startswith("res_")}))
+        vlib.log("[c09] %d scripts (%d of the %d exhaustive tiny-topology scripts, %d of %d with the context ending, %d of %d with breaker "
+                 "rejections open/limit, %d simulated; %d end the context, %d have a concurrency-limit rejection; TLC results %s)" % (
+                     len(slist), len(keys), n_tiny_all, n_env["ctx"][1], n_env["ctx"][0], n_env["rej"][1], n_env["rej"][0], len(sk),
+                     sum(1 for x in slist if x["cancel"]), sum(1 for x in slist if any(y["k"] == "limit" for e in x["rejs"] for y in e)),
+                     {k: v for k, v in stats.items() if k.startswith("res_")}))
 
     # ---- 3. adaptive replay into the real client
     # (batches of BATCH scripts, each with its own trace file: vlib.run_cases starts a fresh driver per chunk of
@@ -409,16 +447,30 @@ def run(ctx):
     # ---- 5. measured coverage
     sigs, nontriv, res_cnt, topos, rejected_all, open_runs, natural_runs, timeouts = set(), set(), {}, set(), 0, 0, 0, 0
     orders = set()
+    cancel_runs, cancel_mid_err, cancel_late_ok, limit_runs, limit_err = 0, 0, 0, 0, 0
     for r_ in runs:
         evs = [json.loads(x) for x in r_]
+        ci = [i for i, e in enumerate(evs) if e["ev"] == "cancel"]
+        if ci:
+            cancel_runs += 1
+            # the context ended before the last attempt began and the bulk failed / ended at the very end of a success
+            if evs[-1]["res"] == "err" and sum(1 for e in evs[ci[0]:] if e["ev"] == "shard") >= 1:
+                cancel_mid_err += 1
+            if evs[-1]["res"] == "ok":
+                cancel_late_ok += 1
+        if any(o["k"] == "limit" for e in evs for o in e["open"]):
+            limit_runs += 1
+            if evs[-1]["res"] == "err":
+                limit_err += 1
         tp = (evs[0]["hs"], evs[0]["hr"], evs[0]["cs"], evs[0]["cr"])
         topos.add(tp)
         body = [(e["t"], e["s"], tuple(sorted(e["called"])), tuple(e["out"])) for e in evs if e["ev"] == "shard"]
-        sig = hashlib.sha1(json.dumps([tp, body, evs[-1]["res"], evs[0]["open"]]).encode()).hexdigest()
+        nbefore = sum(1 for e in evs[:ci[0]] if e["ev"] == "shard") if ci else -1
+        sig = hashlib.sha1(json.dumps([tp, body, evs[-1]["res"], evs[0]["open"], nbefore]).encode()).hexdigest()
         sigs.add(sig)
         res_cnt[evs[-1]["res"]] = res_cnt.get(evs[-1]["res"], 0) + 1
         anyopen = any(e["open"] for e in evs)
-        if any(o in ("err", "lost") for b in body for o in b[3]) or anyopen:
+        if any(o in ("err", "lost") for b in body for o in b[3]) or anyopen or ci:
             nontriv.add(sig)
         if anyopen:
             open_runs += 1
@@ -429,6 +481,9 @@ def run(ctx):
         orders.add((tp, tuple((b[0], b[1]) for b in body)))
     if (res_cnt.get("ok", 0) == 0 or res_cnt.get("err", 0) == 0) and not ctx.violations and not replay:
         raise vlib.Infra("vacuous replay: results %s" % res_cnt)
+    if (cancel_mid_err == 0 or limit_err == 0) and not ctx.violations and not replay:
+        raise vlib.Infra("vacuous replay of the environment dimensions: %d runs whose context ended before a later shard call and that failed, "
+                         "%d runs with a breaker at its concurrency limit that failed" % (cancel_mid_err, limit_err))
     ctx.cov["traces_validated_against_impl"] = len(runs)
     ctx.cov["evaluations"] = summ["evals"]
     ctx.cov["distinct_nontrivial"] = len(nontriv)
@@ -441,28 +496,39 @@ def run(ctx):
     ctx.cov["runs_with_open_breaker"] = open_runs
     ctx.cov["runs_all_shards_rejected"] = rejected_all
     ctx.cov["runs_natural_breaker"] = natural_runs
+    ctx.cov["runs_context_ended"] = cancel_runs
+    ctx.cov["runs_context_ended_then_failed"] = cancel_mid_err
+    ctx.cov["runs_context_ended_acknowledged"] = cancel_late_ok
+    ctx.cov["runs_with_breaker_at_concurrency_limit"] = limit_runs
     ctx.cov["design_states"] = design_states
     ctx.cov["trace_validation_states"] = tv_states
     ctx.cov["chunks_needing_resend_generalisation"] = resend
-    ctx.cov["selftest"] = "hand-written good run accepted; recorded run with one outcome corrupted rejected; recorded run with its last shard call removed rejected"
+    ctx.cov["selftest"] = ("hand-written good runs accepted (incl. throttled shard -> error, context ended after a failed attempt -> error); recorded run with "
+                           "one outcome corrupted rejected; recorded run with its last shard call removed rejected; hand-written runs 'only shard throttled, "
+                           "acknowledged' and 'attempt failed, context ended, acknowledged' rejected")
     for r_ in runs[:: max(1, len(runs) // 3)][:3]:
         ctx.add_samples([[_compact(json.loads(x)) for x in r_]])
     ctx.cov["rule"] = (
         "design: every reachable state of BulkWrite for all 20 topologies with <=2 shards x <=2 replicas per tier (with/without long-term tier), "
-        "outcomes {ok, err, lost} per replica call + breaker rejection, MaxTries=3, once as transcription and once with re-sending allowed; liveness on the same scope"
-        + ("" if quick else "; plus hot<=3x3 with cold<=1x1, and all 90 topologies up to 3x3/3x3 under a VIEW that abstracts the finished long-term tier")
+        "outcomes {ok, err, lost} per replica call + breaker rejection (circuit open / concurrency limit), the request context ending at any moment (calls begun later fail), "
+        "MaxTries=3, once as transcription and once with re-sending and giving up under an ended context allowed; liveness on the same scope"
+        + ("" if quick else "; plus hot<=3x3 with cold<=1x1, and all 90 topologies up to 3x3/3x3 under a VIEW that abstracts the finished long-term tier (there with a context that stays alive)")
         + ". binding: script = (topology, per-host outcome of the k-th call, breaker schedule) projected from finished TLC behaviours: "
-        + ("a seeded sample of 900 of" if quick else "all") + " the %d distinct scripts of the exhaustive enumeration over topologies with <=4 hosts, plus seeded -simulate behaviours over all 90 topologies with a fault budget; "
+        + ("a seeded sample of 900 of" if quick else "all") + " the %d distinct scripts of the exhaustive enumeration over topologies with <=4 hosts, "
+        + ("seeded samples of 450 each" if quick else "all 5647 / 6000") + " of the exhaustive enumerations over topologies with <=3 hosts with the request context ending after any shard call (caller cancels / deadline passes) "
+        "and with breaker rejections of both kinds, plus seeded -simulate behaviours over all 90 topologies with a fault budget, both rejection kinds and a planned end of the context in 6 of 10 walks; "
         "each script is run 1 (single-shard tiers) or 3 times against the real SeqDBClient; every run is validated by TLC against BulkWriteTrace. "
         "distinct_nontrivial = distinct recorded runs (topology, sequence of shard calls with called replicas and outcomes, result) with at least one failed call or open breaker") % n_tiny_all
     ctx.assumptions += [
         "stores are scripted fakes of storeapi.StoreApiClient; 'accepted' is the fake's own bookkeeping (payload compared byte for byte), not a real store's disk",
         "timeout = the breaker's 25 ms execution deadline expiring inside a call (the fake waits for ctx.Done()); a late reply that still reports success is not modelled",
-        "breaker rejections are not observable call by call: BreakerReject is left to TLC and restricted to breakers the harness saw open (forced open/close at shard-call boundaries through the process-global circuit manager); "
-        "in the runs with self-tripping breakers it is unrestricted",
+        "breaker rejections are not observable call by call: BreakerReject is left to TLC and restricted to breakers the harness saw open (forced open/close at shard-call boundaries through the process-global circuit manager) "
+        "or filled to MaxConcurrent (1..3 per driver process) with parked StoreDocuments calls of other SeqDBClients that share the breaker; in the runs with self-tripping breakers it is unrestricted",
         "the client's written bits are inferred by TLC from which replicas are called; shard order is whatever math/rand produced (adaptive replay, 3 repetitions)",
-        "uniform replica count per tier (as stores.NewStoresFromString builds it); hot tier non-empty; context never cancelled by the caller",
-        "one bulk at a time per process (breakers are process-global); concurrency of several bulks through shared breakers is not explored",
+        "uniform replica count per tier (as stores.NewStoresFromString builds it); hot tier non-empty",
+        "the request context ends (cancel() or a real deadline) at shard-call boundaries chosen by the script; a replica call begun on a context that is done fails without storing (the fake does what the gRPC stub does); "
+        "the end of the context is logged when the harness makes or first sees it",
+        "one bulk under test per process (breakers are process-global); the other bulks in flight are parked inside one breaker each, they are not themselves scripted (their acknowledgement is checked against their store)",
     ]
     # the proxy as a whole (ProxySystem.tla): a real bulk client and a real search ingestor over real in-process
     # stores behind fault-injecting client wrappers; every recorded history must be a behaviour of the model
